@@ -71,8 +71,50 @@ Share(copy, change, refill, nested) ==
   IN IF copy = "call"
      THEN <<Make(1, "a", a0), Def(2, "f", <<"b">>, <<chg>> \o fill \o tail \o <<Ret(9, Var("b"))>>), Make(10, "r", G("f", <<Var("a")>>)), Shout(11, Var("r")), Shout(12, Var("a"))>>
      ELSE <<Make(1, "a", a0), Make(2, "b", Var("a")), chg>> \o fill \o tail
+\* CAPT(mm, caller): a function `bump` CAPTURES the script array `v` and mutates it through a variable or an index
+\* path; it is called while the caller has its own parameter / local / block variable also named `v`.
+\* The mutation must land in the array `bump` captured (the declaration the name resolves to in the text).
+CaptMuts == Muts \cup {"nested-pop", "nested-reverse"}
+CMut(id, mm, val) ==
+  CASE mm = "nested-pop" -> ExprS(id, M(Idx(Var("v"), Num(1)), "pop", <<>>))
+    [] mm = "nested-reverse" -> ExprS(id, M(Idx(Var("v"), Num(1)), "reverse", <<>>))
+    [] OTHER -> Mut(id, "v", mm, val)
+Capt(mm, caller, elems) ==
+  LET e(c) == IF elems = "str" THEN Fresh(c) ELSE Num(c)
+      v0 == Arr(<<e(1), Arr(<<e(2), e(3)>>)>>)
+      w0 == Arr(<<e(5), Arr(<<e(6), e(7)>>)>>)
+      bump == Def(2, "bump", <<>>, <<CMut(3, mm, e(9)), Ret(4, Num(0))>>)
+      tail == <<Shout(30, Var("v"))>>
+  IN CASE caller = "param" -> <<Make(1, "v", v0), bump, Def(5, "work", <<"v">>, <<ExprS(6, G("bump", <<>>)), Ret(7, Var("v"))>>),
+                                Make(8, "r", G("work", <<w0>>)), Shout(9, Var("r"))>> \o tail
+       [] caller = "local" -> <<Make(1, "v", v0), bump, Def(5, "work", <<>>, <<Make(10, "v", w0), ExprS(6, G("bump", <<>>)), Ret(7, Var("v"))>>),
+                                Make(8, "r", G("work", <<>>)), Shout(9, Var("r"))>> \o tail
+       [] caller = "block" -> <<Make(1, "v", v0), bump, [k |-> "block", id |-> 5, b |-> <<Make(10, "v", w0), ExprS(6, G("bump", <<>>)), Shout(9, Var("v"))>>]>> \o tail
+       \* the capturing function is nested in a function that owns `v`; the caller chain has another `v` in between
+       [] caller = "nested-owner" -> <<Def(20, "owner", <<>>, <<Make(1, "v", v0), bump, Def(5, "work", <<"v">>, <<ExprS(6, G("bump", <<>>)), Ret(7, Var("v"))>>),
+                                                               Make(8, "r", G("work", <<w0>>)), Shout(9, Var("r")), Ret(21, Var("v"))>>),
+                                       Shout(30, G("owner", <<>>))>>
+\* PENDING(how, change): an array (of computed strings) is read as an EARLIER operand of an unfinished expression; a LATER
+\* operand is a call that changes the source array (indexed store / pop / whole re-assignment) and then stores other
+\* computed strings of the same size.  The earlier operand is a copy: it keeps its elements.
+Pending(how, change, nested) ==
+  LET a0 == IF nested THEN Arr(<<Arr(<<Fresh(1)>>), Fresh(2)>>) ELSE Arr(<<Fresh(1), Fresh(2)>>)
+      chg == CASE change = "store" -> (IF nested THEN SetI(4, "a", <<Num(0), Num(0)>>, Fresh(3)) ELSE SetI(4, "a", <<Num(0)>>, Fresh(3)))
+               [] change = "pop" -> ExprS(4, M(Var("a"), "pop", <<>>))
+               [] change = "whole" -> [k |-> "set", id |-> 4, n |-> "a", site |-> 0, e |-> Arr(<<Fresh(3)>>)]
+               [] change = "reverse-store" -> SetI(4, "a", <<Num(1)>>, Fresh(3))
+      clobber == Def(2, "clobber", <<>>, <<chg, Make(5, "t", Fresh(4)), Make(6, "u", Fresh(5)), Ret(7, Fresh(6))>>)
+      first == Def(8, "first", <<"x", "y">>, <<Ret(9, Var("x"))>>)
+  IN <<Make(1, "a", a0), clobber, first>> \o
+     (CASE how = "literal" -> <<Make(10, "b", Arr(<<Var("a"), G("clobber", <<>>)>>)), Shout(11, Var("b"))>>
+        [] how = "args" -> <<Shout(11, G("first", <<Var("a"), G("clobber", <<>>)>>))>>
+        [] how = "element-args" -> <<Shout(11, G("first", <<Idx(Var("a"), Num(0)), G("clobber", <<>>)>>))>>
+        [] how = "nested-literal" -> <<Make(10, "b", Arr(<<Arr(<<Var("a")>>), G("clobber", <<>>)>>)), Shout(11, Var("b"))>>)
+     \o <<Shout(12, Var("a"))>>
 Programs ==
-       {Rec(o, mm, w, d) : o \in {"local", "param"}, mm \in Muts, w \in {"after", "before"}, d \in {1, 2}}
+       {Capt(mm, c, el) : mm \in CaptMuts, c \in {"param", "local", "block", "nested-owner"}, el \in {"num", "str"}}
+  \cup {Pending(h, ch, n) : h \in {"literal", "args", "element-args", "nested-literal"}, ch \in {"store", "pop", "whole", "reverse-store"}, n \in {TRUE, FALSE}}
+  \cup {Rec(o, mm, w, d) : o \in {"local", "param"}, mm \in Muts, w \in {"after", "before"}, d \in {1, 2}}
   \cup {Share(c, ch, rf, n) : c \in {"call", "make"}, ch \in {"store", "pop", "push", "whole"}, rf \in {"var", "push", "two", "none"}, n \in {TRUE, FALSE}}
 VARIABLES prog, m, fuel, hist
 vars == <<prog, m, fuel, hist>>
